@@ -473,6 +473,11 @@ func (e *Engine) canon(fc *FrameCtx, v ssa.Value, depth int) (string, bool) {
 		f := fieldName(v.X.Type(), v.Field)
 		return "&(" + b + ")." + f, st
 	case *ssa.Field:
+		// a field of a struct value built by a composite literal that only its own
+		// function writes (passed by value to helpers): it is the value stored there
+		if s, st, ok := e.structValueField(fc, v.X, v.Field, depth); ok {
+			return s, st
+		}
 		b, st := e.canon(fc, v.X, depth+1)
 		f := fieldName(v.X.Type(), v.Field)
 		return "(" + b + ")." + f, st && e.Immutable[typeName(v.X.Type())+"."+f]
@@ -506,6 +511,14 @@ func (e *Engine) canon(fc *FrameCtx, v ssa.Value, depth int) (string, bool) {
 			}
 			if fa, ok := v.X.(*ssa.FieldAddr); ok {
 				f := fieldName(fa.X.Type(), fa.Field)
+				// a field of a by-value copy (a spilled value receiver or parameter)
+				if a0, ok := fa.X.(*ssa.Alloc); ok {
+					if w := wholeStore(a0); w != nil {
+						if s, st, ok := e.structValueField(e.ctxOfOr(fc, a0.Parent()), w, fa.Field, depth); ok {
+							return s, st
+						}
+					}
+				}
 				// a field of a "captured-state" struct (a closure turned into a struct with
 				// methods): written at exactly one site in the program, on the freshly
 				// allocated object we are reading from — it is that stored value
@@ -582,6 +595,111 @@ func (e *Engine) canon(fc *FrameCtx, v ssa.Value, depth int) (string, bool) {
 		return "slice(" + s + ")@" + e.valID(fc, v), true
 	}
 	return "v:" + e.valID(fc, v), true
+}
+
+// structValueField: the canonical value of field number field of the struct value w, when
+// w is (through parameters of explored frames and by-value copies) a struct built by a
+// composite literal that only its own function writes.
+func (e *Engine) structValueField(fc *FrameCtx, w ssa.Value, field int, depth int) (string, bool, bool) {
+	for i := 0; i < 6 && depth < 40; i++ {
+		bv, bfc := e.ArgValue(fc, w)
+		ld, ok := stripConv(bv).(*ssa.UnOp)
+		if !ok || ld.Op != token.MUL {
+			return "", false, false
+		}
+		a, ok := ld.X.(*ssa.Alloc)
+		if !ok {
+			return "", false, false
+		}
+		if sv := structLitField(a, field); sv != nil {
+			s, st := e.canon(e.ctxOfOr(bfc, a.Parent()), sv, depth+1)
+			return s, st, true
+		}
+		w2 := wholeStore(a)
+		if w2 == nil {
+			return "", false, false
+		}
+		w, fc = w2, e.ctxOfOr(bfc, a.Parent())
+	}
+	return "", false, false
+}
+
+// wholeStore: the local struct a is written exactly once, as a whole, and otherwise only
+// read field by field; the value stored.
+func wholeStore(a *ssa.Alloc) ssa.Value {
+	var val ssa.Value
+	n := 0
+	for _, ref := range *a.Referrers() {
+		switch x := ref.(type) {
+		case *ssa.Store:
+			if x.Addr != ssa.Value(a) {
+				return nil
+			}
+			val = x.Val
+			n++
+		case *ssa.FieldAddr:
+			for _, r2 := range *x.Referrers() {
+				if ld, ok := r2.(*ssa.UnOp); !ok || ld.Op != token.MUL {
+					if _, dbg := r2.(*ssa.DebugRef); !dbg {
+						return nil
+					}
+				}
+			}
+		case *ssa.UnOp:
+			if x.Op != token.MUL {
+				return nil
+			}
+		case *ssa.DebugRef:
+		default:
+			return nil
+		}
+	}
+	if n != 1 {
+		return nil
+	}
+	return val
+}
+
+// structLitField: a is a local struct that is only written field by field, never as a
+// whole, and whose address goes nowhere else; the one value stored in the field, or nil.
+func structLitField(a *ssa.Alloc, field int) ssa.Value {
+	var val ssa.Value
+	n := 0
+	for _, ref := range *a.Referrers() {
+		switch x := ref.(type) {
+		case *ssa.FieldAddr:
+			for _, r2 := range *x.Referrers() {
+				switch y := r2.(type) {
+				case *ssa.Store:
+					if y.Addr != ssa.Value(x) {
+						return nil
+					}
+					if x.Field == field {
+						val = y.Val
+						n++
+					}
+				case *ssa.UnOp:
+					if y.Op != token.MUL {
+						return nil
+					}
+				case *ssa.DebugRef:
+				default:
+					return nil
+				}
+			}
+		case *ssa.UnOp:
+			if x.Op != token.MUL {
+				return nil
+			}
+		case *ssa.DebugRef:
+		default:
+			return nil
+		}
+	}
+	if n != 1 {
+		return nil
+	}
+	return val
 }
 
 // ArgValue follows a parameter of an inlined frame to the argument value in the calling
